@@ -18,7 +18,6 @@ package core
 
 import (
 	"encoding/json"
-	"fmt"
 	"sync"
 	"time"
 )
@@ -415,7 +414,9 @@ func (s *LinearState) findRules(ctx *Context, event Map) (map[string]Map, error)
 				}
 			}
 		default:
-			panic(fmt.Errorf("rule %#v bad type", rule))
+			// A fact with a "rule" property that isn't a rule
+			// (IndexedState treats it as a plain fact, too).
+			Log(WARN, ctx, "LinearState.FindRules", "name", s.Name, "id", id, "warning", "rule isn't a map")
 		}
 	}
 
